@@ -1,0 +1,251 @@
+//! Verification hook (guard: `cfg(any(kani, mahf_verif))`): a fixed-capacity association
+//! array standing in for `std::collections::{HashMap, HashSet}` inside the state registry.
+//!
+//! `std`'s `HashMap` (SipHash + SIMD group probing) is intractable for bounded model checking;
+//! this stand-in exposes exactly the methods the registry and its entry API use. With the guard
+//! off this file is not compiled at all.
+//!
+//! Layout notes (measured, see /verif/DESIGN.md §2.2): entries are boxed individually and all
+//! searches and `Drop` are written loop-free so that the harness unwind bound is independent
+//! of the capacity. Exceeding the capacity panics (never silent).
+#![allow(missing_docs, clippy::new_without_default)]
+
+/// Key comparison: under Kani ids are per-type function addresses stored in the first word of
+/// the `TypeId` (see the verification copy of `better_any`); natively it is plain `==`.
+#[cfg(kani)]
+#[inline(always)]
+fn same_key<K: PartialEq>(a: &K, b: &K) -> bool {
+    let a = unsafe { core::mem::transmute_copy::<K, [*const (); 2]>(a) };
+    let b = unsafe { core::mem::transmute_copy::<K, [*const (); 2]>(b) };
+    a[0] == b[0]
+}
+#[cfg(not(kani))]
+#[inline(always)]
+fn same_key<K: PartialEq>(a: &K, b: &K) -> bool {
+    a == b
+}
+
+const CAP: usize = 12;
+pub struct HashMap<K, V> {
+    items: core::mem::ManuallyDrop<[Option<Box<(K, V)>>; CAP]>,
+}
+impl<K, V> Drop for HashMap<K, V> {
+    fn drop(&mut self) {
+        // loop-free so that harness unwind bounds are not dictated by CAP
+        drop(self.items[0].take());
+        drop(self.items[1].take());
+        drop(self.items[2].take());
+        drop(self.items[3].take());
+        drop(self.items[4].take());
+        drop(self.items[5].take());
+        drop(self.items[6].take());
+        drop(self.items[7].take());
+        drop(self.items[8].take());
+        drop(self.items[9].take());
+        drop(self.items[10].take());
+        drop(self.items[11].take());
+    }
+}
+impl<K, V> Default for HashMap<K, V> {
+    fn default() -> Self {
+        Self {
+            items: core::mem::ManuallyDrop::new([
+                None, None, None, None, None, None, None, None, None, None, None, None,
+            ]),
+        }
+    }
+}
+impl<K: PartialEq, V> HashMap<K, V> {
+    pub fn new() -> Self {
+        Self::default()
+    }
+    #[inline(always)]
+    fn at(&self, i: usize, k: &K) -> bool {
+        match &self.items[i] {
+            Some(e) => same_key(&e.0, k),
+            None => false,
+        }
+    }
+    fn position(&self, k: &K) -> Option<usize> {
+        if self.at(0, k) {
+            return Some(0);
+        }
+        if self.at(1, k) {
+            return Some(1);
+        }
+        if self.at(2, k) {
+            return Some(2);
+        }
+        if self.at(3, k) {
+            return Some(3);
+        }
+        if self.at(4, k) {
+            return Some(4);
+        }
+        if self.at(5, k) {
+            return Some(5);
+        }
+        if self.at(6, k) {
+            return Some(6);
+        }
+        if self.at(7, k) {
+            return Some(7);
+        }
+        if self.at(8, k) {
+            return Some(8);
+        }
+        if self.at(9, k) {
+            return Some(9);
+        }
+        if self.at(10, k) {
+            return Some(10);
+        }
+        if self.at(11, k) {
+            return Some(11);
+        }
+        None
+    }
+    fn free(&self) -> usize {
+        if self.items[0].is_none() {
+            return 0;
+        }
+        if self.items[1].is_none() {
+            return 1;
+        }
+        if self.items[2].is_none() {
+            return 2;
+        }
+        if self.items[3].is_none() {
+            return 3;
+        }
+        if self.items[4].is_none() {
+            return 4;
+        }
+        if self.items[5].is_none() {
+            return 5;
+        }
+        if self.items[6].is_none() {
+            return 6;
+        }
+        if self.items[7].is_none() {
+            return 7;
+        }
+        if self.items[8].is_none() {
+            return 8;
+        }
+        if self.items[9].is_none() {
+            return 9;
+        }
+        if self.items[10].is_none() {
+            return 10;
+        }
+        if self.items[11].is_none() {
+            return 11;
+        }
+        panic!("kmap capacity exceeded (verification bound)")
+    }
+    pub fn contains_key(&self, k: &K) -> bool {
+        self.position(k).is_some()
+    }
+    pub fn get(&self, k: &K) -> Option<&V> {
+        match self.position(k) {
+            Some(i) => self.items[i].as_ref().map(|e| &e.1),
+            None => None,
+        }
+    }
+    pub fn get_mut(&mut self, k: &K) -> Option<&mut V> {
+        match self.position(k) {
+            Some(i) => self.items[i].as_mut().map(|e| &mut e.1),
+            None => None,
+        }
+    }
+    pub fn insert(&mut self, k: K, v: V) -> Option<V> {
+        match self.position(&k) {
+            Some(i) => self.items[i].replace(Box::new((k, v))).map(|e| e.1),
+            None => {
+                let i = self.free();
+                self.items[i] = Some(Box::new((k, v)));
+                None
+            }
+        }
+    }
+    pub fn remove(&mut self, k: &K) -> Option<V> {
+        match self.position(k) {
+            Some(i) => self.items[i].take().map(|e| e.1),
+            None => None,
+        }
+    }
+    pub fn entry(&mut self, k: K) -> Entry<'_, K, V> {
+        match self.position(&k) {
+            Some(i) => Entry::Occupied(OccupiedEntry {
+                map: self,
+                index: i,
+            }),
+            None => Entry::Vacant(VacantEntry { map: self, key: k }),
+        }
+    }
+}
+pub enum Entry<'a, K, V> {
+    Occupied(OccupiedEntry<'a, K, V>),
+    Vacant(VacantEntry<'a, K, V>),
+}
+pub struct OccupiedEntry<'a, K, V> {
+    map: &'a mut HashMap<K, V>,
+    index: usize,
+}
+impl<'a, K, V> OccupiedEntry<'a, K, V> {
+    pub fn get(&self) -> &V {
+        &self.map.items[self.index].as_ref().unwrap().1
+    }
+    pub fn get_mut(&mut self) -> &mut V {
+        &mut self.map.items[self.index].as_mut().unwrap().1
+    }
+    pub fn into_mut(self) -> &'a mut V {
+        &mut self.map.items[self.index].as_mut().unwrap().1
+    }
+    pub fn insert(&mut self, v: V) -> V {
+        std::mem::replace(&mut self.map.items[self.index].as_mut().unwrap().1, v)
+    }
+    pub fn remove(self) -> V {
+        self.map.items[self.index].take().unwrap().1
+    }
+}
+pub struct VacantEntry<'a, K, V> {
+    map: &'a mut HashMap<K, V>,
+    key: K,
+}
+impl<'a, K: PartialEq, V> VacantEntry<'a, K, V> {
+    pub fn insert(self, v: V) -> &'a mut V {
+        let i = self.map.free();
+        self.map.items[i] = Some(Box::new((self.key, v)));
+        &mut self.map.items[i].as_mut().unwrap().1
+    }
+}
+
+/// Eight-slot set with the one method `distinct()` needs.
+pub struct HashSet<K> {
+    items: [Option<K>; 8],
+    n: usize,
+}
+impl<K: Copy + PartialEq> HashSet<K> {
+    pub fn new() -> Self {
+        Self {
+            items: [None; 8],
+            n: 0,
+        }
+    }
+    pub fn insert(&mut self, k: K) -> bool {
+        let mut i = 0;
+        while i < self.n {
+            if let Some(e) = &self.items[i] {
+                if same_key(e, &k) {
+                    return false;
+                }
+            }
+            i += 1;
+        }
+        self.items[self.n] = Some(k);
+        self.n += 1;
+        true
+    }
+}
